@@ -338,11 +338,14 @@ let gen03 seed n =
 
 let gen09 seed n =
   rnd := Random.State.make [|seed|];
+  loose := true;
   let cnt = ref 0 in
+  let big = ref 0 in
   while !cnt < n do
     let f = gen_frame () in
     let bs = spec_encode f in
-    if List.length bs < 3000 then begin
+    let l = List.length bs in
+    if l < 3000 || (l < 140000 && !big < 12 && (incr big; true)) then begin
       List.iter (fun (c, fr) ->
           incr cnt;
           (* the strict decoder must reject it too, else the variant is not a must-reject frame *)
